@@ -25,7 +25,12 @@ META = {
             "and areas; targets: 2-D areas; data dims (y,x), (b,y,x), (y,x,b), (t,b,y,x), float64/float32/int16/uint8; masks "
             "0 %, ~40 %, all. Every output element of XArrayResamplerNN and KDTreeNearestXarrayResampler must equal the "
             "numpy kd_tree.resample_nearest result for the same geometry (masked source pixels removed from the numpy "
-            "source). Non-trivial: target spans >= 2 chunks or data has extra dims or a mask. Distinct = distinct canonical input.",
+            "source). Non-trivial: target spans >= 2 chunks or data has extra dims or a mask. Distinct = distinct canonical input. "
+            "future_nn_maskmode: one case = (source: future/legacy SwathDefinition with dask lon/lats or future/legacy area; data with invalid pixels "
+            "(NaN, integer dtype max or _FillValue) incl. a 2 x 2 block; mask_area in False / True / None / explicit array; layout, dtype, chunkings): "
+            "the result must equal the numpy resampler's for the full source when no mask is in effect (False; None for areas) and for the source "
+            "without the invalid pixels when one is (True, explicit, None for SwathDefinition), and the brute-force nearest usable pixel. "
+            "Non-trivial there: the two references differ.",
     "assumptions": ["pykdtree's mask= argument excludes exactly the masked points (checked per case by the numpy reference "
                     "run on the source with masked pixels invalidated)", "ties within 1e-9 relative are skipped"],
 }
@@ -196,8 +201,119 @@ def worker(seed, tier, chunk, out_path):
             except Exception as e:  # noqa
                 rec["future_error"] = f"{type(e).__name__}: {e}"
         cases.append(rec)
+    cases += _maskmode_cases(seed, tier, chunk)
     with open(out_path, "wb") as f:
         pickle.dump(cases, f)
+
+
+def _maskmode_cases(seed, tier, chunk):
+    """Data WITH invalid pixels (NaN / integer fill) resampled by KDTreeNearestXarrayResampler under every setting of `mask_area`:
+    False (no mask: the nearest pixel wins whatever its value), True, None (documented default: a mask for SwathDefinition sources, none
+    for areas) and an explicit mask array. Real code only; the references are the numpy resampler on the full source and on the source
+    with the invalid pixels removed."""
+    import random
+
+    import dask
+    import dask.array as da
+    import xarray as xr
+    from pyresample import kd_tree
+    from pyresample.future.geometry import AreaDefinition as FutureArea
+    from pyresample.future.geometry import SwathDefinition as FutureSwath
+    from pyresample.future.resamplers.nearest import KDTreeNearestXarrayResampler
+    from pyresample.geometry import SwathDefinition
+    dask.config.set(scheduler="synchronous")
+    rng = random.Random(f"C05-maskmode-{seed}-{chunk}")
+    n_cases = 8 if tier == "quick" else 40
+    out = []
+    for ci in range(n_cases):
+        name, lon0, lat0 = rng.choice(kc.PLACES)
+        span = rng.choice([0.5, 2.0, 2.0])
+        res = span * 111000.0 / 8
+        th, tw = rng.randrange(3, 8), rng.randrange(3, 8)
+        tgt, tkind = kc.area_at(rng, lon0, lat0, tw, th, res)
+        src_kind = rng.choice(["future_swath", "future_swath", "future_swath", "legacy_swath", "future_area", "legacy_area"])
+        if ci < 2:
+            src_kind = "future_swath"       # every interpreter (chunk size) sees the opt-out and the default on the class whose default is to mask
+        sh, sw = rng.randrange(4, 10), rng.randrange(4, 10)
+        geo_dims = ("y", "x")
+        if src_kind.endswith("area"):
+            a, skind = kc.area_at(rng, lon0 + rng.uniform(-span, span) / 6, lat0 + rng.uniform(-span, span) / 6, sw, sh, res * rng.choice([0.5, 1, 1]))
+            slon, slat = kc.lonlats(a)
+            src = FutureArea(a.crs, (sh, sw), a.area_extent) if src_kind == "future_area" else a
+        else:
+            slon, slat = kc.swath(rng, sh, sw, lon0, lat0, span * rng.choice([0.7, 1.2]), rng.choice([0.0, 0.0, 0.1]))
+            geo_dims = rng.choice([("y", "x"), ("rows", "cols")])
+            cls = FutureSwath if src_kind == "future_swath" else SwathDefinition
+            gcy, gcx = _ragged(rng, sh), _ragged(rng, sw)
+            src = cls(xr.DataArray(da.from_array(slon, chunks=(gcy, gcx)), dims=geo_dims),
+                      xr.DataArray(da.from_array(slat, chunks=(gcy, gcx)), dims=geo_dims))
+        radius = rng.choice([res * 0.9, res * 2, res * 2, res * 30])
+        modes = ["False", "False", "True", "explicit"] + (["None"] if src_kind != "legacy_swath" else [])   # (None + legacy swath class: not specified)
+        mode = rng.choice(modes)
+        if ci < 2:
+            mode = ("False", "None")[ci]
+        layout = rng.choice(["yx", "yx", "byx", "yxb"])
+        dtype = rng.choice([np.float64, np.float32, np.float32, np.int16, np.uint8])
+        is_float = np.issubdtype(dtype, np.floating)
+        base = (1 + np.arange(sh * sw).reshape(sh, sw) % 199).astype(dtype)
+        # invalid pixels: isolated ones and one 2 x 2 block; every band is invalid there
+        inv = np.array([[rng.random() < 0.2 for _ in range(sw)] for _ in range(sh)])
+        r0, c0 = rng.randrange(sh - 1), rng.randrange(sw - 1)
+        inv[r0:r0 + 2, c0:c0 + 2] = True
+        attrs = {"units": "K", "name": f"maskmode{ci}"}
+        if is_float:
+            badv = np.nan
+        else:
+            badv = rng.choice([int(np.iinfo(dtype).max), int(np.iinfo(dtype).max), 0])
+            if badv == 0 or rng.random() < 0.5:
+                attrs["_FillValue"] = badv
+        if layout == "yx":
+            arr, dims = base.copy(), geo_dims
+            arr[inv] = badv
+        else:
+            bands = [base.copy(), base[::-1, :].copy(), base[:, ::-1].copy()]
+            for b in bands:
+                b[inv] = badv
+            # a pixel that is invalid in ONE band only is not an invalid pixel: it is never masked
+            pr, pc = rng.randrange(sh), rng.randrange(sw)
+            partial = not inv[pr, pc]
+            if partial:
+                bands[1][pr, pc] = badv
+            arr = np.stack(bands, axis=0 if layout == "byx" else -1)
+            dims = (("bands",) + geo_dims) if layout == "byx" else (geo_dims + ("bands",))
+        dchunks = tuple(_ragged(rng, s_) if d in geo_dims else (s_,) if rng.random() < 0.5 else _ragged(rng, s_) for d, s_ in zip(dims, arr.shape))
+        data = xr.DataArray(da.from_array(arr, chunks=dchunks), dims=dims, attrs=attrs)
+        masked = mode in ("True", "explicit") or (mode == "None" and src_kind == "future_swath")
+        rec = {"family": "maskmode", "place": name, "chunk_size": chunk, "src_shape": (sh, sw), "tgt_shape": (th, tw), "src_kind": src_kind,
+               "radius": radius, "layout": layout, "dtype": np.dtype(dtype).name, "mask_area": mode, "data_chunks": dchunks, "target_kind": tkind,
+               "invalid_value": "nan" if is_float else badv, "fill_attr": attrs.get("_FillValue"), "n_invalid": int(inv.sum()),
+               "slon": slon, "slat": slat, "arr": arr, "dims": dims, "geo_dims": geo_dims, "inv": inv, "masked_expected": masked, "attrs": attrs}
+        rec["tlon"], rec["tlat"] = kc.lonlats(tgt)
+        with warnings.catch_warnings():
+            warnings.simplefilter("ignore")
+            geo_first = np.moveaxis(arr, [dims.index(geo_dims[0]), dims.index(geo_dims[1])], [0, 1])
+            flat = geo_first.reshape(sh, sw, -1)
+            fv = np.nan if is_float else np.iinfo(dtype).max
+            try:
+                for key, lon_ref in (("ref_plain", slon), ("ref_masked", np.where(inv, np.nan, slon))):
+                    ref = kd_tree.resample_nearest(SwathDefinition(lon_ref, slat), flat, tgt, radius, epsilon=0, fill_value=fv, reduce_data=False, segments=1)
+                    rec[key] = np.asarray(ref).reshape((th, tw) + geo_first.shape[2:])
+            except Exception as e:  # noqa
+                rec["ref_error"] = f"{type(e).__name__}: {e}"
+            try:
+                if mode == "explicit":
+                    gch = (dchunks[dims.index(geo_dims[0])], dchunks[dims.index(geo_dims[1])])
+                    mask_area = xr.DataArray(da.from_array(inv, chunks=gch), dims=geo_dims)
+                else:
+                    mask_area = {"False": False, "True": True, "None": None}[mode]
+                r = KDTreeNearestXarrayResampler(src, tgt)
+                kw = {"fill_value": float("nan")} if is_float else {}       # ints: dtype max (documented)
+                o = r.resample(data, mask_area=mask_area, radius_of_influence=radius, **kw)
+                rec["out"] = {"values": np.asarray(o.values), "dims": tuple(o.dims), "dtype": str(o.dtype), "attrs": dict(o.attrs)}
+            except Exception as e:  # noqa
+                rec["out_error"] = f"{type(e).__name__}: {e}"
+        out.append(rec)
+    return out
 
 
 # ------------------------------------------------------------------------------------------------
@@ -346,6 +462,85 @@ def check_case(ctx, rec):
     ctx.count(f"source_navigation.{rec.get('source_navigation')}")
 
 
+def _ambiguous(rec, lon_eff):
+    """some target has two usable sources within 1e-9 relative, or its nearest one within 1e-9 of the radius"""
+    d, _, _ = kc.dist_matrix(lon_eff.ravel(), rec["slat"].ravel(), rec["tlon"].ravel(), rec["tlat"].ravel())
+    if d.shape[1] < 2:
+        return False, d
+    srt = np.sort(d, axis=1)[:, :2]
+    with np.errstate(invalid="ignore"):
+        tie = np.isfinite(srt[:, 1]) & (np.abs(srt[:, 1] - srt[:, 0]) <= 1e-9 * np.maximum(srt[:, 0], 1.0)) & (srt[:, 0] <= rec["radius"] * (1 + 1e-9))
+        near = np.abs(srt[:, 0] - rec["radius"]) <= 1e-9 * max(rec["radius"], 1.0)
+    return bool(tie.any() or near.any()), d
+
+
+def check_maskmode(ctx, rec):
+    """mask_area = False / True / None / explicit array on data with invalid pixels: the result is the numpy resampler's for the full source
+    (no mask in effect) or for the source without the invalid pixels (mask in effect); decided a second time from first principles
+    (brute-force nearest usable source pixel within the radius)."""
+    site = "future.resamplers.KDTreeNearestXarrayResampler"
+    inp = {k: rec[k] for k in ("place", "chunk_size", "src_shape", "tgt_shape", "src_kind", "radius", "layout", "dtype", "mask_area", "data_chunks",
+                               "target_kind", "invalid_value", "fill_attr", "n_invalid")}
+    if "ref_error" in rec:
+        ctx.note("numpy reference raised: " + rec["ref_error"])
+        return
+    masked = rec["masked_expected"]
+    inv = rec["inv"]
+    lon_eff = np.where(inv, np.nan, rec["slon"]) if masked else rec["slon"]
+    amb, d = _ambiguous(rec, lon_eff)
+    if amb:
+        ctx.count("skipped.tie")
+        return
+    want, want_dims = _expected_layout(rec, rec["ref_masked"] if masked else rec["ref_plain"])
+    other, _ = _expected_layout(rec, rec["ref_plain"] if masked else rec["ref_masked"])
+    # the case can tell the two behaviours apart when some target's nearest in-range pixel is invalid and has a valid neighbour in range
+    decisive = not _eq(want, other)
+    ctx.case("future_nn_maskmode", (rec["place"], rec["chunk_size"], str(rec["src_shape"]), str(rec["tgt_shape"]), rec["src_kind"], rec["layout"], rec["dtype"],
+                                    rec["mask_area"], str(rec["data_chunks"]), rec["radius"], rec["inv"].tobytes()),
+             nontrivial=decisive, sample={"input": inp, "decisive": decisive})
+    ctx.count(f"maskmode.mask_area.{rec['mask_area']}")
+    ctx.count(f"maskmode.source.{rec['src_kind']}")
+    ctx.count(f"maskmode.mask_in_effect.{masked}")
+    ctx.count(f"maskmode.decisive.{decisive}")
+    if "out_error" in rec:
+        ctx.fail(site, f"mask_area={rec['mask_area']}: raised " + rec["out_error"], inp, tags={"kind": "maskmode"}, size=10)
+        return
+    out = rec["out"]
+    size = int(np.prod(rec["src_shape"]))
+    probs = []
+    if out["dims"] != want_dims:
+        probs.append(f"dims {out['dims']} instead of {want_dims}")
+    elif not _eq(out["values"], want):
+        nd = int(np.sum(~np.isclose(out["values"].astype(float), want.astype(float), equal_nan=True))) if out["values"].shape == want.shape else -1
+        as_other = out["values"].shape == other.shape and _eq(out["values"], other)
+        probs.append(f"mask_area={rec['mask_area']} on a {rec['src_kind']} source with {rec['n_invalid']} invalid ({rec['invalid_value']}) pixels: {nd} elements differ from the "
+                     f"numpy resampler's result for the {'source without the invalid pixels' if masked else 'full source (no mask: the nearest pixel wins, whatever its value)'}"
+                     + (f"; the result equals the numpy result for the {'full source' if masked else 'source without the invalid pixels'} instead" if as_other else ""))
+    if out["dtype"] != rec["dtype"]:
+        probs.append(f"dtype {out['dtype']} instead of {rec['dtype']}")
+    if out["attrs"].get("units") != "K" or out["attrs"].get("name") != rec["attrs"]["name"]:
+        probs.append("attributes not preserved")
+    if probs:
+        ctx.fail(site, "; ".join(probs), inp, observed={"values": out["values"], "numpy_reference": want},
+                 tags={"kind": "maskmode", "mask_area": rec["mask_area"], "mask_in_effect": masked}, size=size)
+        return
+    # first principles: every target pixel carries the data of its nearest usable source pixel within the radius, else fill
+    if out["values"].shape == want.shape:
+        dims, geo = rec["dims"], rec["geo_dims"]
+        geo_first = np.moveaxis(rec["arr"], [dims.index(geo[0]), dims.index(geo[1])], [0, 1]).reshape(inv.size, -1)
+        nearest = np.argmin(d, axis=1)
+        dmin = d[np.arange(d.shape[0]), nearest]
+        is_float = np.issubdtype(rec["arr"].dtype, np.floating)
+        fillv = np.nan if is_float else np.iinfo(rec["arr"].dtype).max
+        exp = np.where((dmin <= rec["radius"])[:, None], geo_first[nearest], fillv).astype(rec["arr"].dtype)
+        exp_l, _ = _expected_layout(rec, exp.reshape(tuple(rec["tgt_shape"]) + (geo_first.shape[1],)))
+        if not _eq(out["values"], exp_l):
+            nd = int(np.sum(~np.isclose(out["values"].astype(float), exp_l.astype(float), equal_nan=True)))
+            ctx.fail(site, f"mask_area={rec['mask_area']}: {nd} elements are not the data of the nearest {'valid-data ' if masked else ''}source pixel within the radius "
+                     "(brute-force search)", inp, observed={"values": out["values"], "brute_force": exp_l},
+                     tags={"kind": "maskmode-bruteforce", "mask_area": rec["mask_area"], "mask_in_effect": masked}, size=size)
+
+
 def run(ctx):
     from harness.core import REPO, Infra  # type: ignore
     sizes = CHUNK_SIZES_QUICK if ctx.quick else CHUNK_SIZES_THOROUGH
@@ -366,7 +561,10 @@ def run(ctx):
                 continue
             with open(out, "rb") as f:
                 for rec in pickle.load(f):
-                    check_case(ctx, rec)
+                    if rec.get("family") == "maskmode":
+                        check_maskmode(ctx, rec)
+                    else:
+                        check_case(ctx, rec)
     finally:
         import shutil
         shutil.rmtree(tmp, ignore_errors=True)
